@@ -44,11 +44,59 @@ import (
 
 const nsSASL = "urn:ietf:params:xml:ns:xmpp-sasl"
 
+// Syms is a payload as SASL.tla models it: the string between the tags over 1 = a
+// character of the base64 alphabet, 2 = '=', 3 = a character outside the alphabet,
+// 4 = a blank, 5 = a line feed. The specification classifies it; the driver only renders it.
+type Syms []int
+
+// MarshalJSON never writes null (TLC cannot read it).
+func (s Syms) MarshalJSON() ([]byte, error) {
+	if len(s) == 0 {
+		return []byte("[]"), nil
+	}
+	return json.Marshal([]int(s))
+}
+
 // Item is one thing the peer puts on the wire (records of SASL.tla's alphabets).
 type Item struct {
 	K string `json:"k"`
-	P string `json:"p"`
+	P Syms   `json:"p"`
 	M string `json:"m"`
+}
+
+var okPayload = Syms{1, 1, 1, 1}
+
+func (s Syms) is(o Syms) bool {
+	if len(s) != len(o) {
+		return false
+	}
+	for i := range s {
+		if s[i] != o[i] {
+			return false
+		}
+	}
+	return true
+}
+
+// symsOf reads the symbols off the bytes a real counterpart wrote.
+func symsOf(body string) Syms {
+	out := make(Syms, 0, len(body))
+	for i := 0; i < len(body); i++ {
+		c := body[i]
+		switch {
+		case c >= 'A' && c <= 'Z', c >= 'a' && c <= 'z', c >= '0' && c <= '9', c == '+', c == '/':
+			out = append(out, 1)
+		case c == '=':
+			out = append(out, 2)
+		case c == ' ':
+			out = append(out, 4)
+		case c == '\n':
+			out = append(out, 5)
+		default:
+			out = append(out, 3)
+		}
+	}
+	return out
 }
 
 // StepOut is one scripted mechanism step (records of EmitSASL.tla).
@@ -67,7 +115,10 @@ type Scenario struct {
 	Script []StepOut `json:"script"` // script family
 	Peer   []Item    `json:"peer"`   // script family: the peer's items, in order
 	Dev    string    `json:"dev"`    // real family: the counterpart's deviation
-	PwOK   bool      `json:"pwok"`   // real family: the counterpart knows the right password
+	// real family: the counterpart's ShapeAt-th element (1 = the first) is replaced by Shape
+	ShapeAt int   `json:"shape_at,omitempty"`
+	Shape   *Item `json:"shape,omitempty"`
+	PwOK    bool  `json:"pwok"` // real family: the counterpart knows the right password
 	// shared family: the sessions negotiated with one feature value and the schedule
 	// ("seq": one after the other, "alt": alternating at every read on an empty transport,
 	// "nest": the second session runs while the first one waits for its first SASL item)
@@ -79,6 +130,10 @@ type Scenario struct {
 type Pool struct {
 	CAlpha        []Item      `json:"calpha"`
 	SAlpha        []Item      `json:"salpha"`
+	CShaped       []Item      `json:"cshaped"` // every answer of a server with every payload shape
+	SShaped       []Item      `json:"sshaped"` // every request of a client with every payload shape
+	CScriptsShape [][]StepOut `json:"cscripts_shape"`
+	SScriptsShape [][]StepOut `json:"sscripts_shape"`
 	CScripts      [][]StepOut `json:"cscripts"`
 	SScriptsQuick [][]StepOut `json:"sscripts_quick"`
 	SScripts      [][]StepOut `json:"sscripts"`
@@ -127,6 +182,7 @@ type run struct {
 	cpDone  bool
 	cpStep  int
 	pending []pend
+	answers int  // real family: elements of the counterpart handed to the library
 	verdict bool // script family: verdict of the permission callback at this step
 }
 
@@ -199,12 +255,41 @@ func (fc *featCtx) logged(m sasl.Mechanism) sasl.Mechanism {
 		},
 		Next: func(n *sasl.Negotiator, challenge []byte, data interface{}) (bool, []byte, interface{}, error) {
 			c, _ := data.(wcache)
+			if scramClientWouldSpin(m.Name, fc.cur.sc.Role, c.i, challenge) {
+				// (not sasl.go's business and no question of property C03: reported as an observation)
+				scramSpins++
+				fc.logStep(m.Name, c.i, false, errScramSpin)
+				return false, nil, wcache{i: c.i + 1, inner: c.inner}, errScramSpin
+			}
 			more, resp, cache, err := m.Next(n, challenge, c.inner)
 			fc.logStep(m.Name, c.i, more, err)
 			return more, resp, wcache{i: c.i + 1, inner: cache}, err
 		},
 	}
 }
+
+// scramClientWouldSpin: mellium.im/sasl v0.3.2 (scram_client.go, scramClientNext, state
+// AuthTextSent) walks the comma-separated fields of the server-first message in a loop whose
+// exit test ("no field left") is skipped by the `continue` taken for a field that is shorter
+// than three bytes or has no '=' in second place: if the LAST field of a non-empty challenge
+// is such a field, Step never returns (it spins). The driver cannot let that happen (a run
+// would never end), so it answers such a challenge with an error in the mechanism's place and
+// counts the case.
+func scramClientWouldSpin(name, role string, i int, challenge []byte) bool {
+	if role != "client" || i != 1 || !strings.HasPrefix(name, "SCRAM-") || len(challenge) == 0 {
+		return false
+	}
+	last := challenge
+	if k := strings.LastIndexByte(string(challenge), ','); k >= 0 {
+		last = challenge[k+1:]
+	}
+	return len(last) < 3 || last[1] != '='
+}
+
+var (
+	errScramSpin = errors.New("vt: mellium.im/sasl would never return from this Step (see scramClientWouldSpin)")
+	scramSpins   int
+)
 
 // storeBacked makes a real SCRAM mechanism usable on the receiving side of sasl.go:
 // xmpp.SASLServer has no way to hand salted credentials to the negotiator it creates, so
@@ -240,6 +325,8 @@ func realMech(name string) (sasl.Mechanism, bool) {
 	switch name {
 	case "PLAIN":
 		return sasl.Plain, true
+	case "ANONYMOUS":
+		return sasl.Anonymous, true
 	case "SCRAM-SHA-1":
 		return sasl.ScramSha1, true
 	case "SCRAM-SHA-256":
@@ -257,16 +344,27 @@ func hashOf(name string) func() hash.Hash {
 
 // ---------------------------------------------------------------- the peer's bytes
 
-func payloadBytes(p string) string {
-	switch p {
-	case "ok":
-		return "QUJD"
-	case "eq":
-		return "="
-	case "bad":
-		return "!!!!"
+// payloadBytes renders a payload of the specification. Alphabet characters are 'Q' (its low
+// four bits are zero, so it is canonical in front of padding too); characters outside the
+// alphabet rotate through '!', '%', '-' (of the URL-safe alphabet), '*', '_'.
+func payloadBytes(p Syms) string {
+	const outside = "!%-*_"
+	b := make([]byte, len(p))
+	for i, c := range p {
+		switch c {
+		case 1:
+			b[i] = 'Q'
+		case 2:
+			b[i] = '='
+		case 4:
+			b[i] = ' '
+		case 5:
+			b[i] = '\n'
+		default:
+			b[i] = outside[i%len(outside)]
+		}
 	}
-	return ""
+	return string(b)
 }
 
 func itemBytes(role string, it Item) string {
@@ -281,6 +379,10 @@ func itemBytes(role string, it Item) string {
 	case "abort":
 		return fmt.Sprintf("<abort xmlns='%s'/>", nsSASL)
 	case "failure":
+		if len(it.P) > 0 {
+			// text where the condition element belongs
+			return fmt.Sprintf("<failure xmlns='%s'>%s</failure>", nsSASL, payloadBytes(it.P))
+		}
 		return fmt.Sprintf("<failure xmlns='%s'><not-authorized/></failure>", nsSASL)
 	case "foreign":
 		return "<foo xmlns='urn:vt:foreign'>QUJD</foo>"
@@ -376,6 +478,10 @@ func (r *run) starve() {
 		}
 		p := r.pending[0]
 		r.pending = r.pending[1:]
+		r.answers++
+		if r.sc.Shape != nil && r.answers == r.sc.ShapeAt {
+			p = pend{it: *r.sc.Shape, bytes: itemBytes(r.sc.Role, *r.sc.Shape)}
+		}
 		r.feedItem(p.it, p.bytes)
 		return
 	}
@@ -480,17 +586,14 @@ func unb64(s string) []byte {
 }
 
 func el(kind string, payload []byte, empty bool) pend {
-	p := "ok"
 	body := base64.StdEncoding.EncodeToString(payload)
 	if len(payload) == 0 {
-		p = "empty"
 		body = ""
 		if !empty {
-			p = "eq"
 			body = "="
 		}
 	}
-	return pend{it: Item{K: kind, P: p}, bytes: fmt.Sprintf("<%s xmlns='%s'>%s</%s>", kind, nsSASL, body, kind)}
+	return pend{it: Item{K: kind, P: symsOf(body)}, bytes: fmt.Sprintf("<%s xmlns='%s'>%s</%s>", kind, nsSASL, body, kind)}
 }
 
 func failureEl() pend {
@@ -599,7 +702,7 @@ func (r *run) startClient() {
 	r.cpName = name
 	_, resp, _ := r.cp.Step(nil)
 	auth := func(n string, payload []byte) pend {
-		return pend{it: Item{K: "auth", P: map[bool]string{true: "ok", false: "eq"}[len(payload) > 0], M: n},
+		return pend{it: Item{K: "auth", P: symsOf(b64(payload)), M: n},
 			bytes: fmt.Sprintf("<auth xmlns='%s' mechanism='%s'>%s</auth>", nsSASL, n, b64(payload))}
 	}
 	switch dev {
@@ -627,7 +730,7 @@ func (r *run) counterClient(w *wrote) {
 				r.cpStep++
 				// start over with PLAIN and the right password
 				payload := []byte("\x00" + user + "\x00" + password)
-				r.pending = append(r.pending, pend{it: Item{K: "auth", P: "ok", M: "PLAIN"},
+				r.pending = append(r.pending, pend{it: Item{K: "auth", P: symsOf(b64(payload)), M: "PLAIN"},
 					bytes: fmt.Sprintf("<auth xmlns='%s' mechanism='PLAIN'>%s</auth>", nsSASL, b64(payload))})
 				return
 			}
@@ -646,7 +749,7 @@ func (r *run) counterClient(w *wrote) {
 		if dev == "retry_after_failure" && r.cpStep == 0 {
 			r.cpStep++
 			payload := []byte("\x00" + user + "\x00" + password)
-			r.pending = append(r.pending, pend{it: Item{K: "auth", P: "ok", M: "PLAIN"},
+			r.pending = append(r.pending, pend{it: Item{K: "auth", P: symsOf(b64(payload)), M: "PLAIN"},
 				bytes: fmt.Sprintf("<auth xmlns='%s' mechanism='PLAIN'>%s</auth>", nsSASL, b64(payload))})
 		}
 	}
@@ -1104,6 +1207,79 @@ func (o *out) explore(base Scenario, alpha []Item, depth int) {
 	rec(nil)
 }
 
+// exploreShaped runs the tree of peer sequences in which exactly one item is taken from shaped
+// (an element with one of the payload shapes of SASL.tla) - at every position of the exchange
+// the session reaches: before it the peer behaves (honest(i) is its i-th item), after it the
+// peer goes on with every item of after. As in explore, a prefix is extended only when the
+// session asked for more input.
+func (o *out) exploreShaped(base Scenario, honest func(i int) Item, shaped, after []Item, depth int) {
+	var rec func(prefix []Item, used bool)
+	rec = func(prefix []Item, used bool) {
+		sc := base
+		sc.Peer = append([]Item(nil), prefix...)
+		evs, starved := runScenario(sc)
+		if starved {
+			sc.Peer = append(sc.Peer, Item{K: "eof"})
+		}
+		if used || len(prefix) == 0 {
+			o.emit(sc, evs)
+		}
+		if !starved || len(prefix) >= depth {
+			return
+		}
+		ext := func(a Item, u bool) { rec(append(append([]Item(nil), prefix...), a), u) }
+		if used {
+			for _, a := range after {
+				ext(a, true)
+			}
+			return
+		}
+		for _, a := range shaped {
+			if a.K == honest(len(prefix)).K || a.K == "failure" || a.K == "success" {
+				ext(a, true)
+			}
+		}
+		ext(honest(len(prefix)), false)
+	}
+	rec(nil, false)
+}
+
+// shapedReal: the real mechanisms with a well-behaved counterpart one of whose elements is
+// replaced by an element of every shape.
+func shapedReal(pool Pool) []Scenario {
+	var scs []Scenario
+	for _, m := range []struct {
+		name string
+		n    int // elements a well-behaved server sends
+	}{{"PLAIN", 1}, {"ANONYMOUS", 1}, {"SCRAM-SHA-1", 2}} {
+		for at := 1; at <= m.n; at++ {
+			for i := range pool.CShaped {
+				scs = append(scs, Scenario{Fam: "real", Role: "client", Local: []string{m.name}, Adv: []string{m.name}, Dev: "none", PwOK: true,
+					ShapeAt: at, Shape: &pool.CShaped[i]})
+			}
+		}
+	}
+	for _, m := range []struct {
+		name string
+		n    int // elements a well-behaved client sends
+	}{{"PLAIN", 1}, {"SCRAM-SHA-1", 2}} {
+		for at := 1; at <= m.n; at++ {
+			for _, it := range pool.SShaped {
+				if (it.K == "auth") != (at == 1) {
+					continue
+				}
+				it := it
+				if it.K == "auth" {
+					it.M = m.name
+				}
+				scs = append(scs, Scenario{Fam: "real", Role: "server", Local: []string{"SCRAM-SHA-1", "PLAIN"}, Adv: []string{m.name}, Dev: "none", PwOK: true,
+					ShapeAt: at, Shape: &it})
+			}
+		}
+	}
+	return scs
+}
+
 func envInt(k string, d int) int {
 	if v, err := strconv.Atoi(os.Getenv(k)); err == nil {
 		return v
@@ -1222,7 +1398,7 @@ func main() {
 		for _, loc := range pool.Local {
 			for _, adv := range pool.Adv {
 				sc := Scenario{Fam: "script", Role: "client", Local: loc, Adv: adv,
-					Script: []StepOut{{More: false, Perm: "none"}}, Peer: []Item{{K: "success", P: "empty"}}}
+					Script: []StepOut{{More: false, Perm: "none"}}, Peer: []Item{{K: "success"}}}
 				evs, _ := runScenario(sc)
 				o.emit(sc, evs)
 			}
@@ -1245,7 +1421,7 @@ func main() {
 		// SASL_SDEPTH_FULL (0 = skip).
 		var reduced []Item
 		for _, a := range pool.SAlpha {
-			if a.K == "auth" && a.M != "M1" && a.P != "ok" {
+			if a.K == "auth" && a.M != "M1" && !a.P.is(okPayload) {
 				continue
 			}
 			reduced = append(reduced, a)
@@ -1266,8 +1442,31 @@ func main() {
 			o.emit(sc, evs)
 			tick()
 		}
-		// (5) one feature value, two sessions
 		o.keep = false
+		// (5) payload shapes: every element that carries a payload, with every shape of SASL.tla
+		// (by length and alphabet), at every position of the exchange, scripted and real mechanisms
+		cok, sok := Item{K: "challenge", P: okPayload}, Item{K: "response", P: okPayload}
+		for _, script := range pool.CScriptsShape {
+			o.exploreShaped(Scenario{Fam: "script", Role: "client", Local: []string{"M1"}, Adv: []string{"M1"}, Script: script},
+				func(int) Item { return cok }, pool.CShaped, []Item{cok, {K: "success"}}, cdepth)
+			tick()
+		}
+		for _, script := range pool.SScriptsShape {
+			o.exploreShaped(Scenario{Fam: "script", Role: "server", Local: []string{"M1", "M2"}, Script: script},
+				func(i int) Item {
+					if i == 0 {
+						return Item{K: "auth", P: okPayload, M: "M1"}
+					}
+					return sok
+				}, pool.SShaped, []Item{sok}, sdepth)
+			tick()
+		}
+		for _, sc := range shapedReal(pool) {
+			evs, _ := runScenario(sc)
+			o.emit(sc, evs)
+			tick()
+		}
+		// (6) one feature value, two sessions
 		if stride := envInt("SASL_SHARED_STRIDE", 4); stride > 0 {
 			o.sharedPairs(stride, envInt("VERIF_SEED", 1), thorough, tick)
 		}
@@ -1279,5 +1478,6 @@ func main() {
 	}
 	tr, ev := tw.Counts()
 	vt.Summary{Traces: tr, Events: ev, Evaluations: o.runs, Distinct: len(o.distinct), Samples: o.samples, Mismatches: o.mismatches,
-		Extra: map[string]interface{}{"authn": o.authn, "by_family": o.byFam, "shared_runs": o.sharedRuns, "shared_runs_differing": o.sharedDiff}}.Print()
+		Extra: map[string]interface{}{"authn": o.authn, "by_family": o.byFam, "shared_runs": o.sharedRuns, "shared_runs_differing": o.sharedDiff,
+			"scram_client_steps_that_would_never_return": scramSpins}}.Print()
 }
